@@ -24,7 +24,7 @@ def is_gas(phase):
 
 class WorldC13(World):
     PROP = 'C13'
-    RUNS = {'quick': 30000, 'thorough': 500000}
+    RUNS = {'quick': 24000, 'thorough': 500000}
     WALL = {'quick': 50, 'thorough': 560}
     STATE_CHANGING = ('mklist', 'new', 'attach', 'reorder', 'copy', 'reload')
     STATE_RULE = 'per species: (class, gas?, number of pressure adjustments, number of coverage models, shares its caller list)'
